@@ -49,6 +49,11 @@ type C13Hooks struct {
 	// Unfollowed is called for a call into module code (or a dynamic call)
 	// whose body could not be entered.
 	Unfollowed func(x *C13Ctx, call ssa.CallInstruction, st uint64)
+	// RangeFunc (optional) is called when the path runs a range-over-func loop
+	// over a standard iterator (`for v := range maps.Values(m)`): ctor is the
+	// call that built the iterator, yield the loop body. The body is then
+	// explored zero times and once.
+	RangeFunc func(x *C13Ctx, call ssa.CallInstruction, ctor *ssa.Call, yield *ssa.Function, st uint64) uint64
 	// Opaque (optional): bodies of these module functions are not entered (the
 	// rule models the call itself, e.g. fifo.Mutex.Lock as a lock operation).
 	Opaque func(fn *ssa.Function) bool
@@ -567,6 +572,20 @@ func (e *C13Explorer) exec(p *c13Path, b *ssa.BasicBlock, i int) {
 				p.st = e.hooks.Instr(x, v, p.st)
 			}
 			f.resumeB, f.resumeI = b, i+1
+			if ctor, yf, ybinds := e.seqCall(p, v); yf != nil && p.top.depth() < e.MaxDepth && e.frameOf(p, yf) == nil {
+				// an iterator of the standard library drives the loop body (the yield
+				// function): zero iterations, or the body (further iterations repeat it)
+				if e.hooks.RangeFunc != nil {
+					p.st = e.hooks.RangeFunc(x, v, ctor, yf, p.st)
+				}
+				q := p.clone()
+				e.exec(q, b, i+1)
+				nf := c13NewFrame(yf, p.top)
+				nf.call, nf.binds = v, ybinds
+				p.top = nf
+				b, i = yf.Blocks[0], 0
+				continue
+			}
 			if nf := e.enter(p, v, false); nf != nil {
 				b, i = nf.fn.Blocks[0], 0
 			} else {
@@ -1612,4 +1631,32 @@ func c13OnlyIfaceStore(p *Prog, id FieldID) ssa.Value {
 		return vs[0]
 	}
 	return nil
+}
+
+// seqCall recognises `seq(yield)` where seq is the iter.Seq / iter.Seq2 built
+// by a library function (maps.Values, maps.Keys, maps.All, slices.Values,
+// slices.All, slices.Backward, ...) and yield a function value of the module.
+func (e *C13Explorer) seqCall(p *c13Path, c *ssa.Call) (*ssa.Call, *ssa.Function, []ssa.Value) {
+	cc := c.Common()
+	if cc.IsInvoke() || len(cc.Args) != 1 {
+		return nil, nil, nil
+	}
+	ctor, ok := c13StripConv(e.resolve(p, cc.Value, 0)).(*ssa.Call)
+	if !ok {
+		return nil, nil, nil
+	}
+	switch namedKey(ctor.Type()) {
+	case "iter.Seq", "iter.Seq2":
+	default:
+		return nil, nil, nil
+	}
+	cal := staticCallee(ctor)
+	if cal == nil || e.P.InModule(cal) {
+		return nil, nil, nil // module iterators are followed like any other function
+	}
+	yf, binds := e.funcTarget(p, cc.Args[0])
+	if yf == nil || len(yf.Blocks) == 0 || !e.P.InModule(yf) {
+		return nil, nil, nil
+	}
+	return ctor, yf, binds
 }
